@@ -224,6 +224,10 @@ def run(ctx, col: Collector):
             p = idx.lookup_prop(ref.id, name)
             if p is None:
                 raise AnchorMissing(f'Reference.{name}')
+            from ..inline import inlined_info as _ii
+            px = _ii(idx, p, 2, keep={'_validate'})
+            if getattr(px.node, '_inlined_any', False):
+                p = px           # a shared helper (`_table_of(side)`) read in place
             must_call_before(ctx, col, 'C17-endpoint', p, 'validate-first', '_validate', is_normal_return,
                              arg_check=lambda c: isinstance(c.func, ast.Attribute) and norm(c.func.value) == 'self')
         v = idx.lookup_method(ref.id, '_validate')
